@@ -556,7 +556,7 @@ class Run:
                     out.add((i, (o['ent'], o['pk']), (sh.objs[y]['ent'], sh.objs[y]['pk'])))
         return out
 
-    def expand(self, before, after, forced=()):
+    def expand(self, before, after, forced=(), forced_links=()):
         """column-level operations of one high-level call = difference of the shadow before / after it
         (`forced`: (oid, column name) assigned explicitly by the call — the real code sets the write bit even when the value is unchanged)"""
         ops = []
@@ -573,6 +573,9 @@ class Run:
         # pairs of objects that die in this call are removed by the call itself (Set.__set__(obj, ()) inside _delete_)
         for l in sorted(lb - la): ops.append({'k': 'unlink', 'l': [l[0], list(l[1]), list(l[2])]})
         for l in sorted(la - lb): ops.append({'k': 'link', 'l': [l[0], list(l[1]), list(l[2])]})
+        for kind, l in forced_links:      # pairs named by the call that were already / not in the collection: the call still runs its bookkeeping
+            if (kind == 'link' and l in lb and l in la) or (kind == 'unlink' and l not in lb and l not in la):
+                ops.append({'k': kind, 'l': [l[0], list(l[1]), list(l[2])]})
         for oid, o in after.objs.items():
             if oid in before.objs and before.objs[oid]['alive'] and not o['alive']:
                 ops.append({'k': 'delete', 'key': [o['ent'], o['pk']]})
@@ -869,7 +872,15 @@ class Run:
                 if k == 'set_ref' and self.w.sides[tuple(op['key'])]['has_col']: forced.add((op['o'], self.w.sides[tuple(op['key'])]['name']))
                 if self.autoflushed(mark): self.mop({'k': 'flush'}, check=False)
                 self.sync_seeds(exclude={tuple(self.key_of(op['oid']))} if k == 'create' else ())
-                mops = self.expand(before, self.sh, forced)
+                fl = []
+                if k in ('coll_add', 'coll_remove') and tuple(op['key'])[0] in self.w.m2m and not self.w.schema['rels'][op['key'][0]]['sym']:
+                    key_ = tuple(op['key'])
+                    for it in op['items']:
+                        if it not in self.sh.objs or not self.sh.objs[it]['alive'] or not self.sh.objs[op['o']]['alive']: continue
+                        a_, b_ = (op['o'], it) if not key_[1] else (it, op['o'])
+                        ka = (self.sh.objs[a_]['ent'], self.sh.objs[a_]['pk']); kb = (self.sh.objs[b_]['ent'], self.sh.objs[b_]['pk'])
+                        fl.append(('link' if k == 'coll_add' else 'unlink', (key_[0], ka, kb)))
+                mops = self.expand(before, self.sh, forced, fl)
                 for i, m in enumerate(mops):
                     self.model_ops.append(m); self.model_checks.append(None); self.count('model-op:' + m['k'])
                 if mops: self.model_checks[-1] = self.snapshot()
@@ -985,7 +996,7 @@ class Run:
                                     observed=sorted(map(repr, got['links'][i])), expected=sorted(map(repr, exp['links'][i])))
 
     # ---------- the C10 oracle: every read form against the shadow
-    def rd(self, form, ctxkey, fn, expected, norm=None, params=()):
+    def rd(self, form, ctxkey, fn, expected, norm=None, params=(), load_key=None):
         """evaluate one read on the real session; compare with the shadow's answer"""
         if self.stop: return
         c = self.cache()
@@ -1007,10 +1018,15 @@ class Run:
             self.after_abort('error:' + str(got)); self.model_abandon('read ended the session')
             return
         if self.w.fragment and not self.abandoned:
-            if mod and self.autoflushed(mark):
-                self.count('autoflush-by:' + form)
-                self.mop({'k': 'flush'}, check=False)
-            self.sync_seeds()
+            if load_key is not None and not (isinstance(got, str) and got.startswith('raised:')):
+                # E[pk] is the model's `load`: cache first, else implicit flush + SELECT
+                self.note_load(load_key[0], load_key[1], got != 'ObjectNotFound', None)
+            else:
+                c1 = self.cache()
+                if mod and (self.autoflushed(mark) or (c1 is not None and not c1.modified)):
+                    self.count('autoflush-by:' + form)
+                    self.mop({'k': 'flush'}, check=False)
+                self.sync_seeds()
         self.learn_pks()
         if got != expected:
             key = '%s:%s' % (form, ctxkey)
@@ -1101,7 +1117,7 @@ class Run:
                 match = [oid for oid in liv if sh.objs[oid]['pk'] == pk]
                 had = self.real_indexed()
                 if form == 'getitem':
-                    self_rd('getitem', ed['pk'], lambda: self.oid_of(cls[pk]), match[0] if match else 'ObjectNotFound')
+                    self_rd('getitem', ed['pk'], lambda: self.oid_of(cls[pk]), match[0] if match else 'ObjectNotFound', load_key=(e, pk))
                 else:
                     kw = {'id': pk} if ed['pk'] != 'composite' else {'p1': pk[0], 'p2': pk[1]}
                     self_rd('get-pk', ed['pk'], lambda: self.oid_of(cls.get(**kw)), match[0] if match else None)
@@ -1263,9 +1279,25 @@ def compare_model(run, ctx, out):
     if steps is None: return {'what': 'driver error', 'model': out, 'impl': None, 'at': 0}
     if len(steps) != len(run.model_ops): return {'what': 'driver returned a different number of steps', 'model': len(steps), 'impl': len(run.model_ops), 'at': 0}
     wellformed = True
+    prev = None
     for i, (mo, st, snap) in enumerate(zip(run.model_ops, steps, run.model_checks)):
         if not st.get('valid', True):
             ctx.count('model:create-under-a-key-in-use'); wellformed = False
+        # which branch of the model did this operation take (read off the state change)
+        k = mo['k']; out_ = st['out'] if isinstance(st['out'], str) else str(st['out'])
+        if k in ('link', 'unlink') and prev is not None and out_ == 'ok':
+            l = json.dumps(mo['l']); pa = {json.dumps(x) for x in prev['added']}; pr = {json.dumps(x) for x in prev['removed']}
+            na = {json.dumps(x) for x in st['added']}; nr = {json.dumps(x) for x in st['removed']}
+            if k == 'link': br = 'from-removed' if (l in pr and l not in nr) else ('new-pair' if (l in na and l not in pa) else 'already-member')
+            else: br = 'from-added' if (l in pa and l not in na) else ('new-removal' if (l in nr and l not in pr) else 'not-member-or-already-removed')
+            ctx.count('model-branch:%s:%s' % (k, br))
+        elif k in ('create', 'set', 'delete', 'load', 'seed', 'link', 'unlink'): ctx.count('model-branch:%s:%s' % (k, out_.split(':')[0] if not out_.startswith('refused') else out_))
+        if k == 'delete' and out_ == 'ok':
+            for key_, status_, _, _ in st['cache']:
+                if key_ == mo['key']: ctx.count('model-branch:delete->' + status_)
+        if any(x is None for x in st['queue']): ctx.count('model-state:queue-with-holes')
+        for w_ in st['writes']: ctx.count('model-write:' + w_[0])
+        prev = st
         if snap is None: continue
         def diff(what, model, impl): return {'what': what, 'model': model, 'impl': impl, 'at': i, 'model_op': mo}
         if 'expect_out' in snap:
